@@ -64,6 +64,9 @@ func runC03(k *kernel.K) {
 	n.DefaultPolicy = simnet.ChunkPolicy(k.W.Pick([]int{5, 2, 1, 1, 0, 2}))
 	n.TCPLikeConns = k.W.Chance(1, 2)
 	n.ResetOnCloseWithUnread = n.TCPLikeConns && k.W.Chance(1, 2) // close(2) with unread input resets a TCP connection
+	if n.ResetOnCloseWithUnread {
+		k.Probe("network_resets_on_close_with_unread_input")
+	}
 	proxy, l := newProxyA(k, n)
 	stamp := 0
 	proxy.SetResponseModifier(martian.ResponseModifierFunc(func(res *http.Response) error {
